@@ -230,7 +230,7 @@ def parse_op(line):
     p = Parser(tokenize(line))
     k = p.next()
     if k in ("var", "const", "observe", "cloneobs", "dropobs", "disallow", "read", "stateunsub", "get", "setmaxheight",
-             "crashat", "observeexport", "dropnode", "dropvar", "expert", "makestale", "invalidateexpert"):
+             "crashat", "observeexport", "exporthandle", "dropnode", "dropvar", "expert", "makestale", "invalidateexpert"):
         return (k, int(p.next()))
     if k in ("pair", "zip", "dependon", "mapref", "mapold", "set", "update", "modify", "replace", "replacewith",
              "unsubscribe", "mapexport"):
